@@ -39,3 +39,26 @@ def run(rep, tier):
             rep.cov["traces_validated_against_impl"] += 1
     rep.cov["restart_sweep"] = {"launch_path_statements": n, "faults": len(ks), "killed": killed}
     rep.cov["distinct_nontrivial"] += killed
+
+
+def run_signals(rep, prop):
+    """Real scheduler, real job processes: the upstream job is terminated by a signal while its body runs.  Its
+    dependent is never launched and ends in error, the independent job runs, the experiment reports failure."""
+    from concurrent.futures import ThreadPoolExecutor
+
+    (e2.VERIF / ".work").mkdir(exist_ok=True)
+    with ThreadPoolExecutor(max_workers=3) as ex:
+        out = list(ex.map(e2.signal_case, ["TERM", "INT", "KILL"]))
+    for r in out:
+        rep.cov["evaluations"] += 1
+        if r.get("machinery"):
+            rep.machinery_failure("signal scenario: " + r["problem"])
+            continue
+        what = f"upstream job terminated by SIG{r['sig']} while its body runs"
+        if r.get("problem"):
+            rep.violation(f"{prop}/signal/{r['problem'][:40]}", f"{what}: {r['problem']}", {"signal": r})
+        elif r["states"] != ["ERROR", "ERROR", "DONE"] or r["bodies"]["x2"] != [0, 0] or r["bodies"]["x3"] != [1, 1] or r["rc"] == 0:
+            rep.violation(f"{prop}/signal/{r['sig']}/{r['states']}", f"{what}: final states {r['states']} (expected ERROR, ERROR, DONE), the dependent's body began "
+                          f"{r['bodies']['x2'][0]} times, the independent job ran {r['bodies']['x3']}, exit status of the experiment {r['rc']}", {"signal": r})
+        else:
+            rep.cov["traces_validated_against_impl"] += 1
